@@ -434,6 +434,14 @@ def tables(draw):
     else:
         k = draw(st.floats(0.5, 6))
         ys = [ymag * float(np.sin(k * (v - x0) / (h * npt * 0.5)) + 0.3) for v in xs]
+    if draw(st.integers(0, 5)) == 0:
+        # integer abscissae (bin numbers, pixel indices): same table, integer-valued x
+        x0i = draw(st.integers(-50, 50))
+        xs = [float(x0i)]
+        for d in inc:
+            xs.append(xs[-1] + float(1 + int(d * 4)))
+        if not draw(st.booleans()):
+            ys = [ymag * v for v in draw(st.lists(st.floats(-1, 1), min_size=npt, max_size=npt))]
     return xs, ys
 
 
@@ -454,6 +462,7 @@ def ref_interp(xt, yt, u):
 def data_cases(draw):
     xs, ys = draw(tables())
     return {"n": draw(st.one_of(st.integers(1, 120), N_SMALL)), "x": xs, "y": ys,
+            "xint": draw(st.sampled_from([None, "i8", "i4"])),
             "call": draw(st.sampled_from(["integrate", "integrate_data", "qgauss", "npts-in-call"]))}
 
 
@@ -466,6 +475,8 @@ def check_data(case, ctx):
     import esutil.integrate as ei
     n = case["n"]
     xs, ys = np.array(case["x"], dtype="f8"), np.array(case["y"], dtype="f8")
+    if case.get("xint") and np.all(xs == np.round(xs)):
+        xs = xs.astype(case["xint"])          # an integer-typed abscissa column (np.arange and the like)
     x0, y0 = xs.copy(), ys.copy()
     call = case["call"]
     if call == "integrate":
